@@ -9,6 +9,7 @@ import SradModel.Drv.Host
 import SradModel.Drv.Templ
 import SradModel.Drv.Admit
 import SradModel.Drv.Derive
+import SradModel.Drv.HostLoop
 
 open Srad Srad.Drv
 
@@ -17,6 +18,7 @@ structure DState where
   host : HostD := {}
   templ : Templ.Registry := []
   derive : Option Derive.Schema := none
+  hostloop : HLState := {}
 
 def step (st : DState) (line : String) : DState × String :=
   match words line with
@@ -28,6 +30,9 @@ def step (st : DState) (line : String) : DState × String :=
     let (h, o) := stepHost st.host rest
     ({ st with host := h }, o)
   | "admit" :: rest => (st, stepAdmit rest)
+  | "hostloop" :: rest =>
+    let (h, o) := stepHostLoop st.hostloop rest
+    ({ st with hostloop := h }, o)
   | "derive" :: rest =>
     let (d, o) := stepDerive st.derive rest
     ({ st with derive := d }, o)
